@@ -208,7 +208,7 @@ UNIT = dict(
     ],
     postlude=_split(POST),
     proofs=[
-        dict(name='part_strict', harness='h_part_strict', properties=['C04'], solvers=['cadical', 'z3'], timeout=dict(quick=600, thorough=1800), floor=6, level='bounded', unwind=5, object_bits=10),
+        dict(name='part_strict', harness='h_part_strict', properties=['C04', 'C01'], solvers=['cadical', 'z3'], timeout=dict(quick=600, thorough=1800), floor=6, level='bounded', unwind=5, object_bits=10),
         dict(name='part_length_c03', harness='h_part_length_c03', properties=['C03'], solvers=['cadical', 'z3'], timeout=dict(quick=600, thorough=1800), floor=1, level='bounded', unwind=5, object_bits=10),
         dict(name='part_length_c06', harness='h_part_length_c06', properties=['C06'], solvers=['cadical', 'z3'], timeout=dict(quick=600, thorough=1800), floor=2, level='bounded', unwind=5, object_bits=10),
         dict(name='part_permissive', harness='h_part_permissive', properties=['C05'], solvers=['cadical', 'z3'], timeout=dict(quick=600, thorough=1800), floor=3, level='bounded', unwind=5, object_bits=10),
